@@ -514,7 +514,7 @@ def run(ctx):
     from rules import C20 as _c20
     from ovsa.engine import Ctx as _Ctx
     sub20 = _Ctx("C20", prog, ctx.root, "quick")
-    _c20.run(sub20)
+    getattr(_c20, "_run_base", _c20.run)(sub20)
     n20 = 0
     for i_ in sub20.instances:
         if i_["rule"] == "R20.1" and ("rows" in i_["inst"] or "physical-cpus-to-rows" in i_["inst"]):
@@ -553,3 +553,7 @@ def run(ctx):
              "index + 1 (evaluated on a CPU whose global, logical and physical numbers differ)")
     from rules import round4
     round4.check_affinity_value_is_gindex(ctx, "R13.8")
+    ctx.rule("R13.9", "every type added to a .pcf is written to it, with or without value labels (the function "
+             "that writes a type is evaluated on both)")
+    from rules import round5
+    round5.check_pcf_declares_every_type(ctx, "R13.9")
